@@ -13,10 +13,10 @@ func init() {
 	}
 	c02quick := []int{}
 	for _, pi := range []int{0, 1, 3, 7, 10, 11, 12, 14, 15, 17, 18, 19, 20, 21, 22, 23, 24} {
-		c02quick = append(c02quick, pi*8+0)
+		c02quick = append(c02quick, 1000+pi*8+0)
 	}
 	for _, pi := range []int{0, 11, 16, 21, 13} {
-		c02quick = append(c02quick, pi*8+3)
+		c02quick = append(c02quick, 1000+pi*8+3)
 	}
 	var c02all []int
 	for pi := 0; pi < 28; pi++ {
@@ -30,7 +30,7 @@ func init() {
 			{Rel: ".", Dir: "fiber", Entry: "VH_C02_soundness", Cases: tierCases(c02quick, c02all), Reach: []string{"handler-ran", "handler-skipped"}, MaxPaths: 60000},
 		},
 		Bounds: map[string]string{
-			"quick":    "22 (pattern,config) cases; request path fully symbolic at the listed lengths (<= 18 bytes, incl. the length of the pattern text); wire-safe printable ASCII without ?,#,%",
+			"quick":    "22 (pattern,config) cases; request path fully symbolic at each listed length <= 7 bytes (and 11/12 bytes = the pattern text length for patterns 0, 11, 21); wire-safe printable ASCII without ?,#,%",
 			"thorough": "28 patterns x 8 routing configs; same path lengths (guid: 39 bytes)",
 		},
 		Assumptions: []string{
